@@ -114,7 +114,13 @@ def mon (st : St) (op : List String) (outs : List (List String)) : St × List St
       | _ => []
     let c9 := if !nowExited ∧ st4.sinceMiner > st.idleMs + 2000 then
       [s!"C13 the miner sent nothing for {st4.sinceMiner} ms and its connection was not closed (configured idle time {st.idleMs} ms)"] else []
-    ({ st4 with switching := switchingNow && !nowExited }, c1 ++ c2 ++ c3 ++ c4 ++ c5 ++ c6 ++ c7 ++ c8 ++ c9)
+    -- the tasks are told only once the miner no longer counts as connected (the contract asks for a replacement from
+    -- inside the notification: it must not be given the dying session)
+    let c10 := (outs.filterMap fun o => match o with
+      | ["session", "task", id, "told-while-the-miner-still-counts-as-connected"] =>
+        some s!"C13 task {id} was told that the miner disconnected while the miner still counted as connected and not disconnecting: a replacement can be handed to the ending session and is never told"
+      | _ => none).take 1
+    ({ st4 with switching := switchingNow && !nowExited }, c1 ++ c2 ++ c3 ++ c4 ++ c5 ++ c6 ++ c7 ++ c8 ++ c9 ++ c10)
 
 def monitor : Monitor := { σ := St, init := {}, step := mon }
 
